@@ -94,11 +94,35 @@ Theorem C15_sorter_entry_point : forall xs ys nbr search, length nbr = length xs
   exists r, f_sort_points xs ys nbr search = Some r /\ Permutation r (znodes (length xs)).
 Proof. exact f_sort_points_permutation. Qed.
 
-(* non-vacuity: (i) two far-apart pairs of points, 2-NN graph with two components: all four points are returned;
+(* what _compute stores in self.coordinates (the composed binary64 model run against the implementation): a single
+   2-D region is returned as ONE array holding the region's boundary cell centres in the sorter's order -- a
+   permutation of them; in every other case the coordinate sets are returned as they are *)
+Theorem C15_single_region_sorted_line : forall sh labels coords nbr pts,
+  map (region_coords nan sh coords) (regions labels 1) = [pts] ->
+  length nbr = length pts -> knn_in_range nbr ->
+  exists line, f_hdc_coordinates 2 sh labels 1 coords nbr = FOne line /\ Permutation line pts.
+Proof. exact single_region_line. Qed.
+Theorem C15_other_regions_as_they_are : forall n_dim sh labels n_modes coords nbr,
+  (n_dim <> 2 \/ n_modes <> 1) ->
+  f_hdc_coordinates n_dim sh labels n_modes coords nbr =
+    match map (region_coords nan sh coords) (regions labels n_modes) with
+    | [pts] => FOne pts
+    | sets => FMany sets
+    end.
+Proof. exact other_regions_unsorted. Qed.
+
+(* the sorter BEFORE the repair (depth-first walk of the start node's component only) loses points: six points in two
+   groups of three, 2-NN graph with two components, three points returned (the defect of lead L7) *)
+Theorem C15_unrepaired_sorter_refuted :
+  exists nbr, knn_in_range nbr /\ length nbr = 6 /\ unrepaired_path nbr 0%Z = Some [0; 1; 2]%Z.
+Proof. exact unrepaired_sorter_refuted. Qed.
+
+(* non-vacuity: (i) two far-apart triples of points, 2-NN graph with two components: all six points are returned;
    (ii) a full 3 x 3 region: every cell but the middle one is a boundary cell (grid edge counts as outside) *)
 Example C15_nonvacuous :
-  f_sort_points [0; 0x1p-3; 5; 0x1.4p+2]%float [0; 0; 0; 0]%float [[1; 2]; [0; 2]; [3; 1]; [2; 1]]%Z true = Some [0; 1; 2; 3]%Z /\
-  knn_in_range [[1; 2]; [0; 2]; [3; 1]; [2; 1]]%Z /\
+  f_sort_points [0; 1; 2; 10; 11; 12]%float [0; 0; 0; 0; 0; 0]%float
+                [[1; 2]; [0; 2]; [1; 0]; [4; 5]; [3; 5]; [4; 3]]%Z true = Some [0; 1; 2; 3; 4; 5]%Z /\
+  knn_in_range [[1; 2]; [0; 2]; [1; 0]; [4; 5]; [3; 5]; [4; 3]]%Z /\
   boundary [3; 3] (repeat true 9) = [true; true; true; true; false; true; true; true; true] /\
   in_shape [3; 3] [1; 1].
 Proof.
@@ -118,3 +142,6 @@ Print Assumptions C15_sorter_permutation.
 Print Assumptions C15_sorted_points_are_the_points.
 Print Assumptions C15_sorter_starts_at_first.
 Print Assumptions C15_sorter_entry_point.
+Print Assumptions C15_single_region_sorted_line.
+Print Assumptions C15_other_regions_as_they_are.
+Print Assumptions C15_unrepaired_sorter_refuted.
